@@ -18,7 +18,7 @@ RULE = ('hierarchy of 2-7 branches (depth <=3) with distinctly valued leaves; a 
         'positions; several ports / variables may hit one store or one node; the update gives variable i the '
         'increment 2^i; non-trivial = >=2 ports and (a ".." segment, a remap, a glob with children, or two '
         'variables on one node); distinct = distinct case spec')
-PLAN = {'quick': {'n': 6000, 'min_cases': 1000}, 'thorough': {'n': 200000, 'min_cases': 20000}}
+PLAN = {'quick': {'n': 20000, 'min_cases': 1000}, 'thorough': {'n': 200000, 'min_cases': 20000}}
 REQUIRED_ORACLES = ['read_is_node_value', 'write_lands_on_node', 'no_other_node_changes', 'colliding_updates_all_applied']
 ANCHORS = ['vivarium.core.store:Store._topology_ports', 'vivarium.core.store:Store._establish_path',
            'vivarium.core.store:Store.outer_path', 'vivarium.core.store:Store.schema_topology',
